@@ -40,6 +40,7 @@ THEOREMS = [
     "Opacus.C07.compose_two_comm",
     "Opacus.C07.compose_two_comm_domain",
     "Opacus.C07.domain_shift_add",
+    "Opacus.C07.compose_heterogeneous_exact",
     "Opacus.C07.compose_two_mass",
     "Opacus.C07.tree_mass",
     "Opacus.C07.computeDeltaEstimate_eq_hockey",
@@ -698,11 +699,13 @@ def run_search(ctx):
 
 
 def run(ctx):
-    run_exact(ctx)
-    run_small(ctx)
-    run_ties(ctx)
-    run_float(ctx)
-    run_search(ctx)
+    import time
+
+    for f in (run_exact, run_small, run_ties, run_float, run_search):
+        t = time.time()
+        f(ctx)
+        ctx.extra["t_" + f.__name__] = round(time.time() - t, 1)
+        ctx.log(f"{f.__name__}: {ctx.extra['t_' + f.__name__]}s")
 
 
 def replay(ctx, rp):
